@@ -1,6 +1,6 @@
 (* C14 -- facts about the concrete tables of Gen/GenCodegen.v: the witnesses that refute the full-strength statements. *)
 From Coq Require Import List NArith ZArith Bool Arith Lia.
-From PV Require Import Lib.ListX Model.FmtLit Model.FmtPratt Model.Fmt Model.FmtInst Proofs.FmtPrattProofs Proofs.FmtProofs.
+From PV Require Import Lib.ListX Model.FmtLit Model.FmtPratt Model.Fmt Model.FmtInst Proofs.FmtPrattProofs Proofs.FmtProofs Proofs.FmtLitProofs.
 Import ListNotations.
 Local Open Scope N_scope.
 
@@ -29,4 +29,36 @@ Lemma idempotent_refuted :
 Proof.
   exists leak_witness, 40%nat, leak_reparse. repeat split; try (vm_compute; reflexivity).
   vm_compute. discriminate.
+Qed.
+
+(* ---- identifiers: ASCII-only character classes (enough to exhibit the witnesses, which are ASCII) *)
+Definition ascii_alpha_f (c : N) : bool := in_ranges letters c.
+Definition ascii_alnum_f (c : N) : bool := in_ranges alnum_ascii c.
+
+Definition s_import : str := [105; 109; 112; 111; 114; 116].
+
+Lemma write_ident_refuted :
+  exists s, contains c_backtick s = false /\
+    lex_word ascii_alpha_f ascii_alnum_f I_prql (write_ident_part I_prql s ++ [32]) <> Some (WIdent s, [32]).
+Proof. exists s_import. split; [reflexivity|]. vm_compute. discriminate. Qed.
+
+Lemma display_ident_refuted :
+  exists s, contains c_backtick s = false /\
+    lex_word ascii_alpha_f ascii_alnum_f I_prql (display_ident_part I_prql s ++ [32]) <> Some (WIdent s, [32]).
+Proof. exists w_true. split; [reflexivity|]. vm_compute. discriminate. Qed.
+
+Lemma float_refuted : exists f, flt_wf f = true /\ lex_number (fmt_float f) <> Some (NFloat f, []).
+Proof. exists (FFin 1 0). split; [reflexivity|]. vm_compute. discriminate. Qed.
+
+Lemma string_refuted : exists s, forallb valid_scalar s = true /\ lex_string (fmt_string s) <> Some (s, []).
+Proof. exists [c_squote; c_dquote]. exact string_roundtrip_refuted_witness. Qed.
+
+(* the hypotheses on the Unicode classes are satisfiable (by the ASCII-only classes) *)
+Lemma ascii_classes_ok :
+  (forall c, c < 128 -> ascii_alpha_f c = in_ranges letters c) /\
+  (forall c, c < 128 -> ascii_alnum_f c = in_ranges alnum_ascii c) /\
+  (forall c, ascii_alpha_f c = true -> ascii_alnum_f c = true).
+Proof.
+  repeat split; try reflexivity. intros c. unfold ascii_alpha_f, ascii_alnum_f, in_ranges, letters, alnum_ascii.
+  cbn [existsb fst snd]. rewrite !orb_false_r. intro H. apply orb_true_iff in H as [H|H]; rewrite H; rewrite ?orb_true_r; reflexivity.
 Qed.
